@@ -48,6 +48,18 @@ func (g *sgen) tname() string {
 	return []string{"Item", "Reward", "Prop", "Hero", "Cost", "Attr"}[g.r.Intn(6)] + string(rune('A'+g.seq%26))
 }
 
+// sizeProp: an explicit cardinality on a horizontal aggregate of n column groups — smaller, equal or LARGER than n
+// (a larger size pads with empty elements; protogen never compares it with the header) — or fixed:true
+func (g *sgen) sizeProp(n int) string {
+	if g.r.Intn(5) != 0 {
+		return ""
+	}
+	if g.r.Intn(3) == 0 {
+		return "fixed:true"
+	}
+	return "size:" + strconv.Itoa(1+g.r.Intn(n+2))
+}
+
 func (g *sgen) node(depth int) *snode {
 	k := g.r.Intn(14)
 	if depth <= 0 && k >= 8 {
@@ -82,15 +94,19 @@ func (g *sgen) node(depth int) *snode {
 		return n
 	case 10, 11:
 		n := &snode{kind: "hlist", name: g.vname(), sname: g.tname(), n: 1 + g.r.Intn(3)}
+		n.prop = g.sizeProp(n.n)
 		n.sub = append(n.sub, &snode{kind: "scalar", name: "ID", typ: []string{"int32", "uint32", "string"}[g.r.Intn(3)]})
 		for i := g.r.Intn(3); i > 0; i-- {
 			n.sub = append(n.sub, g.node(depth-1))
 		}
 		return n
 	case 12:
-		return &snode{kind: "hscalar", name: g.vname(), typ: []string{"int32", "string", "uint32", "int64"}[g.r.Intn(4)], n: 1 + g.r.Intn(3)}
+		n := &snode{kind: "hscalar", name: g.vname(), typ: []string{"int32", "string", "uint32", "int64", "datetime", "duration", "fraction", "comparator"}[g.r.Intn(8)], n: 1 + g.r.Intn(3)}
+		n.prop = g.sizeProp(n.n)
+		return n
 	case 13:
 		n := &snode{kind: "hmap", name: g.vname(), sname: g.tname(), n: 1 + g.r.Intn(3)}
+		n.prop = g.sizeProp(n.n)
 		n.sub = append(n.sub, &snode{kind: "scalar", name: "Key", typ: []string{"uint32", "int32", "string"}[g.r.Intn(3)]})
 		for i := g.r.Intn(3); i > 0; i-- {
 			n.sub = append(n.sub, g.node(depth-1))
@@ -141,6 +157,7 @@ func (n *snode) columns(prefix string) []hcol {
 				} else {
 					ec[0].typ = "map<" + n.sub[0].typ + ", " + n.sname + ">"
 				}
+				ec[0].typ += propSfx(n.prop)
 			}
 			cols = append(cols, ec...)
 		}
@@ -150,7 +167,7 @@ func (n *snode) columns(prefix string) []hcol {
 		for e := 1; e <= n.n; e++ {
 			t := n.typ
 			if e == 1 {
-				t = "[]" + n.typ
+				t = "[]" + n.typ + propSfx(n.prop)
 			}
 			cols = append(cols, hcol{prefix + n.name + strconv.Itoa(e), t})
 		}
